@@ -21,6 +21,7 @@ class Module:
     gen_module = None               # default: Gen_<name>
     gen_spec = "GSpec"
     gen_props = ""
+    probe_first = True              # replay a sample first and stop there if it already shows violations
     assumptions = []
 
     def gen_configs(self, prop, tier, sd):
@@ -123,10 +124,34 @@ def run(mod, prop, tier, replay=None, dev=False):
                 per_mode["random"] = txt.count("\n")
         scenarios = open(scen_file).read().splitlines()
         log("[%s] replaying %d scenarios on the real code" % (prop, len(scenarios)))
+        # fail fast: a spread-out sample of the scenarios is replayed and validated first; if it already shows
+        # unlisted rejections for this property the verdict is there and the full replay - which on a tree that makes
+        # operations hang can take an hour of watchdog periods - is not run.  On a tree that passes, the sample is extra.
+        probe_note = None
+        if not replay and mod.probe_first and len(scenarios) > 400:
+            step = max(2, len(scenarios) // 150)
+            pidx = list(range(0, len(scenarios), step))
+            pfile, ptrace = sc.path("probe-scenarios.ndjson"), sc.path("probe-trace.ndjson")
+            with open(pfile, "w") as f:
+                for i in pidx:
+                    f.write(scenarios[i] + "\n")
+            mod.replay(exe, prop, tier, sd, pfile, ptrace, sc)
+            pstats, pbad, pn = vlib.validate_trace(sc.path("probe.tlc"), mod.name, ptrace, java_opts="-Xmx3g -XX:ParallelGCThreads=2")
+            known = set(k["sig"] for k in vlib.load_known() if k["property"] == prop)
+            hits = [b for b in pbad for lab in b["labels"]
+                    if (lab.startswith(prop + "-") or dev) and mod.label_sig(lab, b["detail"]) not in known]
+            if hits:
+                probe_note = ("stopped after the probe sample: %d of %d sampled scenarios rejected; the other %d scenarios "
+                              "were not replayed" % (len(set(b["scn"] for b in hits)), len(pidx), len(scenarios) - len(pidx)))
+                log("[%s] %s" % (prop, probe_note))
+                scenarios = [scenarios[i] for i in pidx]
+                scen_file = pfile
+            else:
+                os.remove(ptrace)
         trace = sc.path("trace.ndjson")
         mod.replay(exe, prop, tier, sd, scen_file, trace, sc)
         traces = [("seq", trace, None)]
-        if not replay:
+        if not replay and not probe_note:
             traces += mod.extra_traces(prop, tier, sd, exe, sc, scenarios)
         bad_all = []
         tstats = collections.Counter()
@@ -194,6 +219,7 @@ def run(mod, prop, tier, replay=None, dev=False):
             "rejections_for_this_property": len(rejections),
             "rejection_signatures": sorted(set(r["sig"] for r in rejections)),
             "unbounded_design_results": proofs,
+            "stopped_early": probe_note,
             "exhaustive": False,
             "checker_cmd": "tlc Gen_%s (INVARIANTS %s); driver %s; tlc Trace_%s" % (mod.name, mod.invariants, mod.driver, mod.name),
         }
